@@ -47,10 +47,14 @@ dynvars == <<walk, registered, rootStarted, pendingStart, cancelCause, pc, ready
 vars == <<cfgvars, dynvars>>
 
 Dependants(n) == {m \in Nodes : n \in Deps[m]}
-RECURSIVE Desc(_)
-Desc(n) == LET ds == Dependants(n) IN ds \cup UNION {Desc(d) : d \in ds}
-RECURSIVE Anc(_)
-Anc(n) == Deps[n] \cup UNION {Anc(d) : d \in Deps[n]}
+\* transitive dependants / dependencies as fixpoints (work polynomial in the graph, not in its number of paths)
+RECURSIVE GrowDown(_)
+GrowDown(X) == LET Y == X \cup {m \in Nodes : Deps[m] \cap X # {}} IN IF Y = X THEN X ELSE GrowDown(Y)
+DescOfSet(S) == GrowDown({m \in Nodes : Deps[m] \cap S # {}})
+Desc(n) == DescOfSet({n})
+RECURSIVE GrowUp(_)
+GrowUp(X) == LET Y == X \cup UNION {Deps[m] : m \in X} IN IF Y = X THEN X ELSE GrowUp(Y)
+Anc(n) == GrowUp(Deps[n])
 Closed(S, D) == \A n \in S : D[n] \subseteq S
 Returned == walk \in {"returned_done", "returned_ctx"}
 
@@ -247,7 +251,11 @@ FairSpec == Spec /\ WF_vars(Next0 /\ ~Done /\ UNCHANGED cfgvars)
 (* ------------------------------------------------------------------ properties *)
 Active == {"called", "running", "taskdone", "returned"}
 \* C03: a callback/command runs only after every transitive dependency completed successfully in this walk
-DepsFirst == \A n \in everCalled : \A p \in Anc(n) : completion[p] = "ok"
+\* (stated on direct dependencies together with "a success was called": by induction over the graph this is the transitive
+\* statement DepsFirstTransitive, which the exhaustive runs check as well)
+DepsFirst == /\ \A n \in everCalled : \A p \in Deps[n] : completion[p] = "ok"
+             /\ \A p \in Nodes : completion[p] = "ok" => p \in everCalled
+DepsFirstTransitive == \A n \in everCalled : \A p \in Anc(n) : completion[p] = "ok"
 \* C03: at most NumWorkers tasks at any instant, one per worker
 WorkerBound == /\ Cardinality({n \in Nodes : pc[n] = "running"}) <= NumWorkers
                /\ \A w \in Workers : slot[w] # 0 => w <= NumWorkers /\ pc[slot[w]] = "running"
@@ -257,13 +265,21 @@ AtMostOnce == [][\A n \in Nodes : (n \in everCalled /\ pc[n] # "parked") => (pc'
 \* C04
 NoLostSignal == lost = {}
 NoRace == ~raced
-FailedAnc(n) == \E p \in Anc(n) : completion[p] = "fail"
+BelowFailure == DescOfSet({p \in Nodes : completion[p] = "fail"})
+FailedAnc(n) == n \in BelowFailure
 Resolved == walk = "returned_done" =>
-   \A n \in Selected : completion[n] # "none" \/ FailedAnc(n) \/ ffTriggered \/ ctxCancelled
+   LET bf == BelowFailure IN \A n \in Selected : completion[n] # "none" \/ n \in bf \/ ffTriggered \/ ctxCancelled
 \* C05 keep-going: everything not below a failure is built, nothing below a failure is ever called
 KeepGoing == (walk = "returned_done" /\ ~FailFast /\ ~ctxCancelled) =>
-   \A n \in Selected : ~FailedAnc(n) => completion[n] # "none"
-NeverBelowFailure == \A n \in Nodes : FailedAnc(n) => n \notin everCalled
+   LET bf == BelowFailure IN \A n \in Selected : n \notin bf => completion[n] # "none"
+NeverBelowFailure == BelowFailure \cap everCalled = {}
+\* C05 keep-going, exactly: a node whose dependencies all succeeded ran and succeeded or failed (failed only if it can fail);
+\* any other node has no success or failure recorded
+KeepGoingExact == (walk = "returned_done" /\ ~FailFast /\ ~ctxCancelled) =>
+   \A n \in Selected :
+      IF \A d \in Deps[n] : completion[d] = "ok"
+        THEN completion[n] \in {"ok", "fail"} /\ (completion[n] = "fail" => n \in CanFail)
+        ELSE completion[n] \notin {"ok", "fail"}
 \* C05 fail-fast / C18 interrupt: once the walker context is cancelled no task observes a live context (no command starts)
 StopsStarts == [][ctxCancelled => \A n \in Nodes : (pc[n] = "called" /\ pc'[n] = "running") => ctxCancelled']_vars
 \* C05: a failure is recorded as a failure, never as success
